@@ -90,6 +90,31 @@ def execute_two_in_one(older: bytes, newer: bytes, check="crc"):
         rig.close()
 
 
+def execute_later_exchange(older: bytes, newer: bytes, check="crc"):
+    """A refresh made of two exchanges (state query, energy query): the state query is answered with `older`; while the
+    energy query is answered the unit also reports `newer` (it changed meanwhile).  The last report received wins."""
+    ref = RefAC(check=check)
+    ref.report_body = bytes(older)
+
+    def script(req):
+        is_state_query = req.frame is not None and len(req.frame) > 12 and req.frame[10] == 0x41 and req.frame[11] == 0x81
+        if is_state_query or not req.responses:
+            for p in req.responses:
+                req.send(p)
+            return
+        new = req.dev.wrap(req.conn, rc.frame_build(bytes(newer), 0x05, check=check))
+        req.conn.deliver_many(list(req.responses) + [new], 0.01)
+
+    rig = Rig(2, ac=ref, script=script)
+    ac = rig.client()
+    ac.enable_energy_usage_requests = True
+    try:
+        out = rig.run(ac.refresh())
+        return out, ac, len(ref.frames)
+    finally:
+        rig.close()
+
+
 def execute_history(payloads, check="crc"):
     """One client: refresh(P0); local (unapplied) edits of every settable attribute; refresh(P1); ... - the last report wins."""
     from msmart.device import AirConditioner as AC
@@ -268,6 +293,11 @@ def run_shard(shard, tier) -> Stats:
             out, ac = execute_two_in_one(q, p, "crc" if v % 2 else "sum")
             prob = judge(st, {"kind": "history two-reports-in-one-exchange", "byte": a, "value": v, "sequence": "two-in-one"}, p, out, ac)
             st.ev(("history", a, v, "two-in-one"), "match" if not prob else "differ", True)
+            out, ac, nreq = execute_later_exchange(q, p, "crc" if v % 2 else "sum")
+            if nreq < 2:
+                raise RuntimeError("the refresh under test must consist of at least two exchanges")
+            prob = judge(st, {"kind": "history report-in-a-later-exchange", "byte": a, "value": v, "sequence": "later-exchange"}, p, out, ac)
+            st.ev(("history", a, v, "later-exchange"), "match" if not prob else "differ", True)
             for seq, label in (([p, p], "same-report-twice"), ([q, p], "other-report-first"), ([p, q, p], "back-to-first")):
                 case = {"kind": "history", "byte": a, "value": v, "sequence": label}
                 out, ac = execute_history(seq, "crc" if v % 2 else "sum")
